@@ -54,6 +54,14 @@ func init() {
 			// (they are fresh for every call), with literal options, and with a variable holding them
 			`<%= optlen() %>|<%= optlen() %>|<%= optlen({a: 1}) %>`, `<% let o = {} %><%= optlen(o) %><%= optlen(o) %>|<%= optlen() %>`,
 			`<%= for (i) in [1, 2] { %><%= optlen() %><% } %>`,
+			// a function value is opaque: the template cannot reach the parsed program through it
+			`<% let f = fn(a, b) { return a } %><%= f(1, 2) %>|<%= f %>`, `<% let f = fn(a, b) { return a } %><%= f(1, 2) %><% let p = f.Parameters %><% p[0] = p[1] %>`,
+			`<% let f = fn(a) { return a } %><% let b = f.Block %><%= b %>`,
+			// slice + value yields a slice of its own: two results of the same left operand do not share storage
+			`<% let x = [1, 2, 3] %><% let a = x + 4 %><% let b = x + 5 %><%= a[3] %>|<%= b[3] %>|<%= len(x) %>`,
+			`<% let x = [1, 2, 3] %><% x = x + 9 %><% let a = x + 4 %><% let b = x + 5 %><%= a[4] %>|<%= b[4] %>|<%= x %>`,
+			`<% let a = xs + 3 %><% let b = xs + 4 %><% let c = (xs + 5) + 6 %><%= a %>|<%= b %>|<%= c %>|<%= xs %>`,
+			`<% let a = [1] %><%= for (i) in [1, 2, 3] { %><% let b = a + i %><% let c = a + 0 %><%= b %><% } %>`,
 			// array literals changed in place and by append
 			`<% let a = [1, 2, 3] %><% a[0] = a[0] + 1 %><% a = a + 4 %><%= a[0] %>,<%= a[3] %>,<%= len(a) %>`, `<%= for (i) in [1, 2] { %><% let b = [1, 2, 3] %><% b[2] = b[2] + i %><%= b[2] %><% } %>`,
 			// partials that include themselves (one text executing while another execution of the same text is pending)
